@@ -552,3 +552,63 @@ def c18(prop, tier, seed, work):
 
 
 CHECKS["C18"] = c18
+
+
+# --------------------------------------------------------------------------- C15: routing and error table
+
+def c15(prop, tier, seed, work):
+    t0 = time.time()
+    vh = vlib.build_harness(work)
+    quick = tier == "quick"
+    cfg = "SPECIFICATION Spec\nINVARIANT TableOK\nINVARIANT Emit\nCHECK_DEADLOCK FALSE\n"
+    res = vlib.tlc(work, "rt-enum", "MCRouting", cfg, workers=4, timeout=1200)
+    vlib.tlc_ok(res, "MCRouting enumeration")
+    classes = vlib.tlc_prints(res["out"], "REQ")
+    if len(classes) < 1000:
+        raise Inconclusive("MCRouting emitted only %d classes" % len(classes))
+    cf = work.path("classes.ndjson")
+    vlib.write_programs(cf, classes)
+    tf = work.path("rt-trace.ndjson")
+    stores = "mem,dir,memdir,dirro"
+    sample, variants = (3, 1) if quick else (1, 4)
+    rc, out, dt = vlib.run([vh, "routing", "-classes", cf, "-o", tf, "-stores", stores, "-seed", str(seed), "-sample", str(sample),
+                            "-variants", str(variants)], timeout=3000, env=dict(os.environ, TMPDIR=work.sub("roots")))
+    cfg = "SPECIFICATION TraceSpec\nINVARIANT Report\nPOSTCONDITION Consumed\nCHECK_DEADLOCK FALSE\n"
+    r2 = vlib.tlc(work, "rt-val", "TraceRouting", cfg, files={tf: "trace.ndjson"}, workers=1, timeout=3000, java_opts="-Xss64m")
+    vs = vlib.tlc_prints(r2["out"], "VERDICT")
+    if "Model checking completed. No error has been found." not in r2["out"] or len(vs) != 1:
+        raise Inconclusive("TraceRouting did not run to the end:\n" + r2["out"][-3000:])
+    v = vs[0]
+    violations = []
+    seen = set()
+    for f in v["fails"]:
+        key = json.dumps([f["store"], f["req"]], sort_keys=True)
+        if key in seen:
+            continue
+        seen.add(key)
+        path = vlib.save_replay(prop, "req-%d" % f["i"], {"property": prop, "kind": "routing", "failure": f, "seed": seed})
+        violations.append((path, f))
+    eps = {}
+    for c in classes:
+        eps[c["ep"]] = eps.get(c["ep"], 0) + 1
+    cov = {"states": res["distinct"], "transitions": res["states"], "traces_validated_against_impl": v["stats"]["events"],
+           "trace_events": v["stats"]["events"], "trace_events_checked": v["stats"]["checked"],
+           "evaluations": v["stats"]["events"], "distinct_nontrivial": len(classes) // sample,
+           "rule": "every request class of spec/Routing.tla (full product per endpoint, %d classes: %s) is one TLC state; "
+                   "quick executes every %d-th class (offset by the seed), thorough all, each on mem, dir, mem-over-dir and read-only dir with "
+                   "%d seeded concretisation(s); a class is non-trivial by construction (it differs from every other in at least one dimension)" % (len(classes), json.dumps(eps), sample, variants),
+           "samples": classes[:3] + classes[len(classes) // 2:len(classes) // 2 + 2],
+           "exhaustive": not quick, "failures": [f for _, f in violations][:10]}
+    vlib.write_evidence(prop, tier, seed, "model_checking", cov, ASSUME_COMMON[:2] + [
+        "classes, not bytes: inside a class only the seeded concretisations are tried",
+        "416 answers to unsatisfiable ranges are produced by net/http with a plain text body and are not held to the error document format"],
+        time.time() - t0, len(violations))
+    if violations:
+        for path, f in violations[:5]:
+            print("VIOLATION property=%s replay=%s" % (prop, path))
+            log("  %s %s -> %s %s (allowed %s)" % (f["store"], f["variant"][:120], f["status"], f["codes"], str(f["allowed"])[:160]))
+        return 1
+    return 0
+
+
+CHECKS["C15"] = c15
